@@ -465,6 +465,225 @@ fn judge(spec: &RunSpec, s: &Summary) -> Vec<(String, String)> {
     v
 }
 
+
+// ------------------------------------------------------------------------------------------
+// Full table + a session that is marked expired while it still serves an exchange + a new
+// handshake: the handshake must be served by evicting an idle session, never the one in use.
+
+const HOLD_PROTO: u16 = 0x7777;
+
+struct HoldHandler;
+
+impl rs_matter::respond::ExchangeHandler for HoldHandler {
+    async fn handle(&self, mut exchange: Exchange<'_>) -> Result<(), Error> {
+        let tag = {
+            let rx = exchange.recv().await?;
+            rx.payload().first().copied().unwrap_or(0)
+        };
+        embassy_time::Timer::after(embassy_time::Duration::from_secs(8)).await;
+        exchange.send(rs_matter::transport::exchange::MessageMeta::new(HOLD_PROTO, 2, true), &[tag, 0xEE]).await
+    }
+}
+
+#[derive(Clone, Copy, Debug, PartialEq, Eq)]
+struct InUseSpec {
+    /// the session in use is a PASE session (expired the way CommissioningComplete does it) rather
+    /// than a CASE session (expired the way RemoveFabric over that very session does it)
+    pase_in_use: bool,
+    /// the new handshake is PASE rather than CASE
+    pase_handshake: bool,
+    /// idle filler sessions besides the one in use (15 = table full)
+    fillers: usize,
+    /// the fillers were used more recently than the session in use
+    fillers_fresher: bool,
+}
+
+fn in_use_json(s: &InUseSpec) -> Value {
+    json!({"expired_in_use": {"pase_in_use": s.pase_in_use, "pase_handshake": s.pase_handshake, "fillers": s.fillers, "fillers_fresher": s.fillers_fresher}})
+}
+
+fn run_expired_in_use(spec: &InUseSpec, seed: u64) -> Result<Vec<(String, String)>, String> {
+    use crate::common::nodes::SessKind;
+    vclock::reset(START_US);
+    let (fab, rc, is) = material();
+    let net = Net::new(24);
+    let r = Owned::from_box(nodes::new_matter());
+    let mr = r.get();
+    set_clock(mr);
+    let c = nodes::crypto(SeededRng::new(seed + 1));
+    creds::install(mr, &c, &fab, &rc, 0x1000).map_err(|e| format!("install R: {:?}", e))?;
+    mr.open_basic_comm_window(600, &c, &()).map_err(|e| format!("window: {:?}", e))?;
+    // client A (network node 0) with the session in use; initiator B (network node 2) for the new handshake
+    let a = Owned::from_box(nodes::new_matter());
+    let ma = a.get();
+    set_clock(ma);
+    creds::install(ma, &c, &fab, &is[0], 0x1000).map_err(|e| format!("install A: {:?}", e))?;
+    let b = Owned::from_box(nodes::new_matter());
+    let mb = b.get();
+    set_clock(mb);
+    creds::install(mb, &c, &fab, &is[1], 0x1000).map_err(|e| format!("install B: {:?}", e))?;
+    let (k1, k2) = (nodes::key(0x11), nodes::key(0x22));
+    let kind = if spec.pase_in_use { SessKind::Pase } else { SessKind::Case };
+    // the session in use is installed first: its unique id at R is 0
+    nodes::install_session(ma, SeededRng::new(101), kind, 0x1000, R_NODE, 1, 2, addr_of(1), &k2, &k1).map_err(|e| format!("{:?}", e.code()))?;
+    nodes::install_session(mr, SeededRng::new(202), kind, R_NODE, 0x1000, 2, 1, addr_of(0), &k1, &k2).map_err(|e| format!("{:?}", e.code()))?;
+    if spec.fillers_fresher {
+        vclock::advance_by_ms(5000);
+    }
+    let filler_kind = if spec.pase_in_use { SessKind::Case } else { SessKind::Pase };
+    for i in 0..spec.fillers {
+        let (ka, kb) = (nodes::key(0x30 + i as u8), nodes::key(0x50 + i as u8));
+        nodes::install_session(mr, SeededRng::new(300 + i as u64), filler_kind, R_NODE, 0x5000 + i as u64, 100 + i as u16, 200 + i as u16, addr_of(4 + i), &ka, &kb).map_err(|e| format!("filler {}: {:?}", i, e.code()))?;
+        vclock::advance_by_ms(1);
+    }
+    let outcome: Rc<RefCell<(Option<String>, Option<Result<(), String>>)>> = Rc::new(RefCell::new((None, None)));
+    let mut exec = Exec::new();
+    {
+        let (send, recv) = (net.end(1), net.end(1));
+        exec.spawn("R", async move {
+            let c = nodes::crypto(SeededRng::new(seed + 20));
+            let sc = SecureChannel::new(&c, &());
+            let handler = rs_matter::respond::ChainedExchangeHandler::new(HOLD_PROTO, HoldHandler, sc);
+            let responder = Responder::new("R", handler, mr, 0);
+            let _ = select(mr.run(&c, send, recv, NoNetwork), responder.run::<3>()).await;
+        });
+    }
+    {
+        let (send, recv) = (net.end(0), net.end(0));
+        let out = outcome.clone();
+        let pase = spec.pase_in_use;
+        exec.spawn("A", async move {
+            let c = nodes::crypto(SeededRng::new(seed + 30));
+            let client = async {
+                let r: Result<String, Error> = async {
+                    let mut ex = if pase { Exchange::initiate_pase(ma, &c, addr_of(1), PASSCODE).await? } else { Exchange::initiate(ma, &c, core::num::NonZeroU8::new(1).unwrap(), R_NODE).await? };
+                    ex.send(rs_matter::transport::exchange::MessageMeta::new(HOLD_PROTO, 1, true), &[7, 1]).await?;
+                    let rx = ex.recv().await?;
+                    Ok(format!("reply:{}", rx.payload().first().copied().unwrap_or(0)))
+                }
+                .await;
+                out.borrow_mut().0 = Some(r.unwrap_or_else(|e| format!("err:{:?}", e.code())));
+                core::future::pending::<()>().await
+            };
+            let _ = select(ma.run(&c, send, recv, NoNetwork), client).await;
+        });
+    }
+    exec.run()?;
+    let in_use = |m: &Matter<'_>| m.with_state(|s| s.verif_sessions().iter().find(|x| x.get_local_sess_id() == 2).map(|x| (x.verif_exchanges().flatten().count(), x.verif_flags().1)));
+    let mut v = Vec::new();
+    let mut expired_done = false;
+    let mut handshake_started = false;
+    let mut quiet: Option<u64> = None;
+    let mut was_live = false;
+    for _ in 0..20000 {
+        let now = vclock::now();
+        if now > START_US + 400_000_000 {
+            break;
+        }
+        let st = in_use(mr);
+        if was_live && st.is_none() && outcome.borrow().0.is_none() {
+            v.push(("C20:session-with-live-exchange-evicted:expired-session".to_string(), format!("the session serving a live exchange disappeared from the device's table ({:?})", spec)));
+            was_live = false;
+        }
+        if let Some((n, _)) = st {
+            was_live = n > 0;
+        }
+        if !expired_done && matches!(st, Some((n, _)) if n > 0) && net.inflight_len() == 0 {
+            // the device's handler now holds the exchange: the session is marked expired under it
+            mr.with_state(|s| {
+                if spec.pase_in_use {
+                    s.verif_sessions_mut().remove_pase(Some(0));
+                } else {
+                    s.verif_sessions_mut().remove_for_fabric(core::num::NonZeroU8::new(1).unwrap(), Some(0));
+                }
+            });
+            if !matches!(in_use(mr), Some((n, true)) if n > 0) {
+                return Err(format!("harness: the session in use was not marked expired ({:?})", in_use(mr)));
+            }
+            expired_done = true;
+            continue;
+        }
+        if expired_done && !handshake_started {
+            let (send, recv) = (net.end(2), net.end(2));
+            let out = outcome.clone();
+            let pase = spec.pase_handshake;
+            exec.spawn("B", async move {
+                let c = nodes::crypto(SeededRng::new(seed + 40));
+                let client = async {
+                    let mut r: Result<(), Error> = Ok(());
+                    for attempt in 0..3 {
+                        if attempt > 0 {
+                            embassy_time::Timer::after(embassy_time::Duration::from_millis(1000)).await;
+                        }
+                        r = async {
+                            if pase {
+                                Exchange::initiate_pase(mb, &c, addr_of(1), PASSCODE).await.map(|_| ())
+                            } else {
+                                let exchange = Exchange::initiate_plaintext(mb, &c, addr_of(1)).await?;
+                                CaseInitiator::perform(exchange, &c, core::num::NonZeroU8::new(1).unwrap(), R_NODE).await
+                            }
+                        }
+                        .await;
+                        if r.is_ok() {
+                            break;
+                        }
+                    }
+                    out.borrow_mut().1 = Some(r.map_err(|e| format!("{:?}", e.code())));
+                    core::future::pending::<()>().await
+                };
+                let _ = select(mb.run(&c, send, recv, NoNetwork), client).await;
+            });
+            handshake_started = true;
+            exec.run()?;
+            continue;
+        }
+        {
+            let o = outcome.borrow();
+            if o.0.is_some() && o.1.is_some() && net.inflight_len() == 0 {
+                let q = *quiet.get_or_insert(now);
+                if now > q + 3_000_000 {
+                    break;
+                }
+            }
+        }
+        if net.inflight_len() > 0 {
+            vclock::advance_by_ms(1);
+            net.deliver(0, false);
+        } else if let Some(t) = vclock::next_deadline() {
+            vclock::advance_to(t);
+        } else {
+            break;
+        }
+        exec.run()?;
+    }
+    let o = outcome.borrow();
+    if !expired_done || !handshake_started {
+        return Err(format!("harness: scenario did not unfold (expired {}, handshake {})", expired_done, handshake_started));
+    }
+    if o.0.as_deref() != Some("reply:7") {
+        v.push(("C20:exchange-on-expired-session-lost".to_string(), format!("the exchange that was live when its session was marked expired ended with {:?} ({:?})", o.0, spec)));
+    }
+    // an idle session exists, so the legitimate handshake must be served
+    if spec.fillers > 0 && !matches!(o.1, Some(Ok(()))) {
+        v.push(("C20:legitimate-handshake-refused-although-an-idle-session-could-be-evicted".to_string(), format!("handshake ended with {:?} ({:?})", o.1, spec)));
+    }
+    Ok(v)
+}
+
+fn in_use_specs() -> Vec<InUseSpec> {
+    let mut v = Vec::new();
+    for pase_in_use in [false, true] {
+        for pase_handshake in [false, true] {
+            for fillers in [15usize, 14, 3] {
+                for fillers_fresher in [true, false] {
+                    v.push(InUseSpec { pase_in_use, pase_handshake, fillers, fillers_fresher });
+                }
+            }
+        }
+    }
+    v
+}
+
 fn spec_json(s: &RunSpec) -> Value {
     json!({"attempts": s.attempts.iter().map(|(k, c)| json!([format!("{:?}", k), c])).collect::<Vec<_>>(), "cancel_responder_after": s.cancel_responder_after, "seed": s.seed})
 }
@@ -490,6 +709,25 @@ fn kind_from(s: &str) -> Kind {
 
 fn replay(ctx: &Ctx, path: &std::path::Path) -> i32 {
     let doc: Value = serde_json::from_str(&std::fs::read_to_string(path).expect("replay file")).expect("json");
+    if !doc["replay"]["expired_in_use"].is_null() {
+        let e = &doc["replay"]["expired_in_use"];
+        let sp = InUseSpec { pase_in_use: e["pase_in_use"].as_bool().unwrap(), pase_handshake: e["pase_handshake"].as_bool().unwrap(), fillers: e["fillers"].as_u64().unwrap() as usize, fillers_fresher: e["fillers_fresher"].as_bool().unwrap() };
+        std::env::set_var("MC_SHOW_PANICS", "1");
+        let mut report = Report::new();
+        match run_expired_in_use(&sp, 500 + ctx.seed) {
+            Err(e) => {
+                eprintln!("MACHINERY: {}", e);
+                return 2;
+            }
+            Ok(v) => {
+                for (sig, what) in v {
+                    println!("  {} {}", sig, what);
+                    report.violation(sig, what, in_use_json(&sp));
+                }
+            }
+        }
+        return common::finish(ctx, report, Evidence::new("model_checking"));
+    }
     let r = &doc["replay"];
     let spec = RunSpec {
         attempts: r["attempts"].as_array().unwrap().iter().map(|a| (kind_from(a[0].as_str().unwrap()), a[1].as_bool().unwrap())).collect(),
@@ -596,14 +834,32 @@ pub fn run_check(ctx: &Ctx) -> i32 {
             }
         }
     }
+    let in_use = in_use_specs();
+    let in_use_results: Vec<Result<Result<Vec<(String, String)>, String>, common::Panic>> = in_use.par_iter().map(|s| common::catch(|| run_expired_in_use(s, seed))).collect();
+    for (sp, r) in in_use.iter().zip(in_use_results) {
+        match r {
+            Err(p) => report.violation(format!("C20:panic:{}", p.class()), format!("{:?}: {}", sp, p), in_use_json(sp)),
+            Ok(Err(e)) => {
+                eprintln!("MACHINERY: {:?}: {}", sp, e);
+                return 2;
+            }
+            Ok(Ok(v)) => {
+                executed += 1;
+                for (sig, what) in v {
+                    report.violation(sig, what, in_use_json(sp));
+                }
+            }
+        }
+    }
     let mut ev = Evidence::new("model_checking");
     ev.set("states", json!(outcomes.len()))
+        .set("expired_in_use_scenarios", json!(in_use.len()))
         .set("transitions", json!(executed))
         .set("traces_validated_against_impl", json!(executed))
         .set("exhaustive", json!(true))
         .set("samples", json!([spec_json(&specs[specs.len() / 3]), spec_json(&specs[specs.len() - 1])]))
         .set("vacuity", json!({"runs": executed, "busy_status_reports_seen": busy, "probe_handshakes_succeeded": probes_ok, "runs_with_idle_unsecured_sessions_left": with_leftover_plain, "distinct_end_states": outcomes.len()}))
-        .set("rule", json!(format!("every sequence of up to {} attempts over 13 attempt kinds (CASE/PASE complete, initiator vanishing after its n-th message, n-th message garbled, wrong passcode), each later attempt sequential or concurrent; the responder future cancelled and restarted after every number of polls 1..{} during each attempt kind; 15..18 completed or abandoned handshakes against the 16-slot session table; horizon 200 s of quiet virtual time, then a probe handshake", if quick { 2 } else { 3 }, max_polls)));
+        .set("rule", json!(format!("every sequence of up to {} attempts over 13 attempt kinds (CASE/PASE complete, initiator vanishing after its n-th message, n-th message garbled, wrong passcode), each later attempt sequential or concurrent; the responder future cancelled and restarted after every number of polls 1..{} during each attempt kind; 15..18 completed or abandoned handshakes against the 16-slot session table; horizon 200 s of quiet virtual time, then a probe handshake; plus 24 scenarios with a (nearly) full table in which a CASE / PASE session is marked expired (RemoveFabric / CommissioningComplete style) while the device's handler holds an exchange on it and a new CASE / PASE handshake then needs a slot", if quick { 2 } else { 3 }, max_polls)));
     ev.assume("an idle unsecured session without exchanges counts as free (it is evictable on demand, which the exhaustion runs exercise)");
     ev.assume("the mDNS resolve/browse rendezvous slots are not driven by this harness");
     if executed == 0 || probes_ok == 0 {
